@@ -185,9 +185,9 @@ def plan(prop, tier):
         P += S("release", "chains", shards=2, stride=40 if q else 6)
         P += S("miri", "hist", n=5 if q else 40, shards=3 if q else 8, profile="drops", timeout=3000, leaks_ok=True)
     elif prop == "C07":
-        P += S("release", "fault", n=200 if q else 6000, shards=8 if q else 12, timeout=1800)
-        P += S("debug", "fault", n=80 if q else 1200, shards=2 if q else 4, timeout=1800)
-        P += S("asan", "fault", n=50 if q else 2500, shards=4 if q else 6, timeout=1800, leaks_ok=True)
+        P += S("release", "fault", n=200 if q else 7000, shards=8 if q else 12, timeout=5400)
+        P += S("debug", "fault", n=80 if q else 2500, shards=2 if q else 4, timeout=5400)
+        P += S("asan", "fault", n=50 if q else 1200, shards=4 if q else 6, timeout=5400, leaks_ok=True)
         P += S("miri", "fault", n=1 if q else 14, shards=4 if q else 12, timeout=3000, leaks_ok=True)
     elif prop == "C08":
         P += S("release", "hist", n=5000 if q else 40000, shards=8, profile="iters")
@@ -250,7 +250,7 @@ def plan(prop, tier):
         # random workloads by a constant factor
         boost = int(os.environ.get("VERIF_THOROUGH_BOOST", "6"))
         for sh in P:
-            if sh["fl"] in ("release", "debug", "ext", "extdebug") and sh["args"][0] in ("hist", "sets", "meta", "clones", "serde", "plain", "limits", "iterstates", "dropbomb", "prefix", "par", "fault"):
+            if sh["fl"] in ("release", "debug", "ext", "extdebug") and sh["args"][0] in ("hist", "sets", "meta", "clones", "serde", "plain", "limits", "iterstates", "dropbomb", "prefix", "par"):
                 a = sh["args"]
                 if "--n" in a:
                     i = a.index("--n")
